@@ -7,10 +7,6 @@ CONSTANTS MaxSteps = 5
           Edits = TRUE
           Pairs = "also"
           Extend = FALSE
+          Mech = FALSE
 INIT Init
-NEXT NextGen
-INVARIANT PoolUntouched
-INVARIANT ResultByOriginal
-INVARIANT RightListPinned
-INVARIANT SwapArguments
-INVARIANT ListAggregates
+NEXT NextGenE
